@@ -39,19 +39,30 @@ Definition panic_ev (s : st) (e : ev) : bool :=
   | _ => false
   end.
 
-Fixpoint replay (completed : bool) (s : st) (es : list ev) : bool :=
+(** outcome of replaying one component's observed history on the model *)
+Inductive rres := RBad | RDone | RPanicEnd.
+
+(** every observation must be what the model predicts, every environment step
+    must be legal, a run that returned normally leaves no timer event behind; a
+    run that aborted must end, for some component, exactly where the model panics *)
+Fixpoint replay (completed : bool) (s : st) (es : list ev) : rres :=
   match es with
-  | [] => if completed then (match queue s with [] => true | _ => false end) else true
+  | [] => if completed then (match queue s with [] => RDone | _ => RBad end) else RDone
   | e :: r =>
       match step s (op_of e) with
-      | Ok s' e' => ev_eqb e e' && replay completed s' r
-      | Panic => panic_ev s e && (match r with [] => true | _ => false end) && negb completed
-      | Illegal => false
+      | Ok s' e' => if ev_eqb e e' then replay completed s' r else RBad
+      | Panic => if panic_ev s e && (match r with [] => true | _ => false end) && negb completed
+                 then RPanicEnd else RBad
+      | Illegal => RBad
       end
   end.
 
+Definition not_bad (r : rres) : bool := match r with RBad => false | _ => true end.
+Definition is_panic_end (r : rres) : bool := match r with RPanicEnd => true | _ => false end.
+
 Definition check_case (c : case) : bool :=
-  forallb (fun k => replay (c_completed c) init (cc_hist k)) (c_comps c).
+  forallb (fun k => not_bad (replay (c_completed c) init (cc_hist k))) (c_comps c)
+  && (c_completed c || existsb (fun k => is_panic_end (replay (c_completed c) init (cc_hist k))) (c_comps c)).
 
 (** ------------------------------------------------------------------ *)
 (** The property itself on the observed history, without the model.     *)
